@@ -24,16 +24,20 @@ OPTION_KEYS = ["serialize_by_alias", "namedtuple_as_dict", "omit_none", "omit_de
 FMT_DIALECT = {"msgpack": ("mashumaro.mixins.msgpack", "MessagePackDialect"), "orjson": ("mashumaro.mixins.orjson", "OrjsonDialect"),
                "toml": ("mashumaro.mixins.toml", "TOMLDialect"), "json": None, "yaml": None}
 
-CASE_TYPE = "env * (entry * bool * nat) * list (string * kv) * option (list (string * kv)) * ty * val * res val"
-# document kind: 0 = order-preserving library, 1 = TOML (table on top, no null), 2 = YAML (the dumper sorts keys; TOML also reorders: scalars before tables)
-OK_FUN = ("fun c : (" + CASE_TYPE + ") => match c with (E, (e, isp, kind), fd, x, t, v, ex) => "
-          "let r := if isp then fmt_encode (if Nat.eqb kind 1 then doc_toml else doc_id) e E fd x t v "
+CASE_TYPE = "env * (entry * bool * string) * list (string * kv) * option (list (string * kv)) * ty * val * res val"
+# strategy_sensitive (decided in Coq from the K13C tables): a union is reached and the format's built-in dialect has a
+# strategy for `date` or sets no_copy_collections - outside the domain of the format model, the case counts as agreeing (and is counted)
+OK_FUN = ("fun c : (" + CASE_TYPE + ") => match c with (E, (e, isp, fmt), fd, x, t, v, ex) => "
+          "if strategy_sensitive fmt E t then true else "
+          "let r := if isp then fmt_encode (doc_for fmt) e E fd x t v "
           "else fmt_decode (fun d : val => Some d) e E t v in "
           "match r, ex with "
-          "| Ok a, Ok b => if isp && negb (Nat.eqb kind 0) then val_sim a b else val_eqb a b "
+          "| Ok a, Ok b => if isp && reorders_keys fmt then val_sim a b else val_eqb a b "
           "| Err XUnmodelled, _ => true "
           "| Err a, Err b => if isp then true else err_eqb a b "
           "| _, _ => false end end")
+SENSITIVE_FUN = ("fun c : (" + CASE_TYPE + ") => match c with (E, (e, isp, fmt), fd, x, t, v, ex) => "
+                 "negb (strategy_sensitive fmt E t) end")
 
 
 def coq_kv(x) -> str:
@@ -93,15 +97,19 @@ def run_format_tie(ctx, tied, budget):
         if sc.dialect is None and k % 2 == 1:
             # give every second scenario a caller dialect (the user-dialect x built-in-dialect merge is what is tied here);
             # every class gets its own Config (ADD_DIALECT_SUPPORT) with the options it effectively had
-            eff = {c.name: (c.by_alias, c.omit_none) for c in sc.classes}
+            eff = {c.name: (c.by_alias, c.omit_none, c.omit_default) for c in sc.classes}
             for c in sc.classes:
-                c.by_alias_own, on = eff[c.name]
+                c.by_alias_own, on, od = eff[c.name]
                 c.own_config = True
                 c.extra.pop("omit_none", None)
+                c.extra.pop("omit_default", None)
                 if on is not None:
                     c.extra["omit_none"] = str(on)
+                if od is not None:
+                    c.extra["omit_default"] = str(od)
             sc.dialect = ctx.rng.choice([True, False, "unset"])
             sc.dialect_omit = ctx.rng.choice([None, True, False])
+            sc.dialect_omit_default = ctx.rng.choice([None, None, True, False])
         src = L.scenario_src(sc)
         try:
             mod = L.load_module(src, f"fmttie{fmt}{k}")
@@ -121,7 +129,7 @@ def run_format_tie(ctx, tied, budget):
             defs.append(f"Definition {env_name} : env :=\n  {L.coq_env(sc)}.")
             fd_ns = coq_ns(FD)
             x_ns = f"(Some {coq_ns(Dl)})" if Dl else "None"
-            istoml = "1%nat" if fmt == "toml" else ("2%nat" if fmt == "yaml" else "0%nat")
+            istoml = coq_str(fmt)
             ctx.hist("format_tie", f"{fmt}:" + ("dialect" if Dl else "plain"))
 
             def add(entry, isp, t, vast, exp, what):
@@ -135,10 +143,7 @@ def run_format_tie(ctx, tied, budget):
                     continue
                 t = sc.roots[i]
                 if reaches_union(sc, t):
-                    # the STRATEGY part of the built-in dialects (pass_through for date/bytes/...) changes which union
-                    # member is selected and what leaks into the document: outside this model (format oracle instead)
-                    ctx.hist("format_tie", "skipped:type-reaches-a-union")
-                    continue
+                    ctx.hist("format_tie", f"{fmt}:type-reaches-a-union")
                 T = mod.ROOTS[i]
                 obj = L.build(mod, v)
                 direct = t[0] == "data" and sc.cls(t[1]).mixin and v[0] == "obj" and v[1] == t[1]
@@ -195,7 +200,7 @@ def run_format_tie(ctx, tied, budget):
         return
     bad, log = vlib.coq_bad_idx("c15_fmt", "DialectMerge C15Model C15Proofs C15Format", "From VerifGen Require Import K2 K13.",
                                 "\n".join(defs), cases, OK_FUN, CASE_TYPE, shard=300,
-                                needs=["theories/C15Format.vo"])
+                                needs=["gen/K13C.vo", "theories/C15Format.vo"])
     name = "format-model-vs-impl (mixin/codec/one-shot x msgpack/orjson/json/yaml/toml, K2 merge)"
     if bad is None:
         ctx.correspondence(name, len(cases), -1, log)
@@ -205,4 +210,7 @@ def run_format_tie(ctx, tied, budget):
         ctx.correspondence(name, len(cases), len(bad), detail)
         if bad:
             ctx.not_shown("correspondence " + name, detail)
+    sens, _ = vlib.coq_bad_idx("c15_fmt_sens", "DialectMerge C15Model C15Proofs C15Format", "From VerifGen Require Import K2 K13.",
+                               "\n".join(defs), cases, SENSITIVE_FUN, CASE_TYPE, shard=300, needs=["theories/C15Format.vo"])
+    ctx.hist("format_tie", "outside-domain:union+built-in date strategy or no_copy_collections (K13C)", len(sens or []))
     ctx.count(n=len(cases))
